@@ -1,8 +1,93 @@
 package an
 
 import (
+	"fmt"
+	"go/token"
 	"golang.org/x/tools/go/ssa"
 )
+
+// worldSet: the values the φ-nodes of an unrolled loop's header held at each of the (distinct)
+// ways the loop was left.
+type worldSet struct {
+	alts   []map[ssa.Value]AV
+	states []State         // the state on the exit edge, per way out (parallel to alts)
+	joined map[*Obj]string // what each object held once all ways out were joined (to tell whether it was touched since)
+	body   map[*ssa.BasicBlock]bool
+	site   ssa.Instruction             // for the returns of a call: the call
+	lks    []map[ssa.Instruction][2]AV // per way out: the map and key each word lookup was last made with
+}
+
+// agrees: the way out (or return) w is consistent with the branch condition cond having the
+// value hold.  cond is one of w's own values (a boolean), or a comparison of one of them with
+// an integer constant; anything else agrees with everything.  known reports whether cond
+// speaks of w's values at all.
+func worldAgrees(w map[ssa.Value]AV, cond ssa.Value, hold bool) (agrees, known bool) {
+	for {
+		u, ok := cond.(*ssa.UnOp)
+		if !ok || u.Op != token.NOT {
+			break
+		}
+		hold, cond = !hold, u.X
+	}
+	if a, in := w[cond]; in {
+		if bv, ok := a.(BoolV); ok && bv.Known {
+			return bv.Val == hold, true
+		}
+		return true, true
+	}
+	bo, ok := cond.(*ssa.BinOp)
+	if !ok {
+		return true, false
+	}
+	lhs, rhs, op := bo.X, bo.Y, bo.Op
+	if _, isC := intConst(lhs); isC {
+		lhs, rhs, op = rhs, lhs, flipOp(op)
+	}
+	k, isC := intConst(rhs)
+	a, in := w[lhs]
+	if !isC || !in {
+		return true, false
+	}
+	switch op {
+	case token.EQL, token.NEQ, token.LSS, token.LEQ, token.GTR, token.GEQ:
+	default:
+		return true, false
+	}
+	iv, ok := a.(IntV)
+	if !ok {
+		return true, true
+	}
+	lo, hi, okb := iv.Bounds(0)
+	if !okb {
+		return true, true
+	}
+	// does the comparison have the value hold for some value in [lo,hi]?
+	possible := false
+	for _, p := range []int64{lo, hi, k, k - 1, k + 1} {
+		if p < lo || p > hi {
+			continue
+		}
+		if cmpHolds(p, op, k) == hold {
+			possible = true
+		}
+	}
+	return possible, true
+}
+
+// mergeOnly: the block holds nothing but φ-nodes and the jump to its one successor.
+func mergeOnly(b *ssa.BasicBlock) bool {
+	if len(b.Succs) != 1 {
+		return false
+	}
+	for _, in := range b.Instrs {
+		switch in.(type) {
+		case *ssa.Phi, *ssa.Jump, *ssa.DebugRef:
+		default:
+			return false
+		}
+	}
+	return true
+}
 
 // maxUnroll bounds the number of iterations evaluated one by one.
 const maxUnroll = 96
@@ -189,7 +274,29 @@ func (e *Eval) evalLoopUnrolled(fr *frame, h *ssa.BasicBlock, body map[*ssa.Basi
 	type edgeKey = [2]*ssa.BasicBlock
 	exitState := map[edgeKey]State{}
 	exitVals := map[ssa.Value]AV{} // values defined in the loop, as they stand whenever the loop is left
+	// the values of the header's φ-nodes each time the loop is left, kept apart: after the loop a
+	// branch on one of them (`if failed`) selects the exits it is consistent with, and with them
+	// the values the others had there (refinements)
+	var worlds []map[ssa.Value]AV
+	var worldSt []State
+	var worldLk []map[ssa.Instruction][2]AV
+	var curPhis map[*ssa.Phi]AV
 	noteExit := func(from, to *ssa.BasicBlock, st State) {
+		if curPhis != nil {
+			w := map[ssa.Value]AV{}
+			for phi := range curPhis {
+				if a, ok := fr.env[phi]; ok && a != nil {
+					w[phi] = a
+				}
+			}
+			worlds = append(worlds, w)
+			worldSt = append(worldSt, st.clone())
+			lk := map[ssa.Instruction][2]AV{}
+			for site, mk := range e.lkKey {
+				lk[site] = mk
+			}
+			worldLk = append(worldLk, lk)
+		}
 		k := edgeKey{from, to}
 		if old, ok := exitState[k]; ok {
 			exitState[k] = e.joinStatesE(old, st)
@@ -251,7 +358,23 @@ func (e *Eval) evalLoopUnrolled(fr *frame, h *ssa.BasicBlock, body map[*ssa.Basi
 	finished := false
 	failed := false
 	iters := 0
-	for iters = 0; iters < maxUnroll; iters++ {
+	// ways round the loop still to be evaluated: normally one (everything that comes back to
+	// the header joined), several where the paths that come back differ in what the header's
+	// φ-nodes get (a flag set on one arm only): those are followed apart, up to a bound
+	type pending struct {
+		st  State
+		phi map[*ssa.Phi]AV
+	}
+	queue := []pending{{st, phiVals}}
+	delete(fr.worlds, h)
+	e.nActs++
+	act := e.nActs
+	e.unrollActs = append(e.unrollActs, act)
+	defer func() { e.unrollActs = e.unrollActs[:len(e.unrollActs)-1] }()
+	for iters = 0; iters < 2*maxUnroll && len(queue) > 0; iters++ {
+		st, phiVals = queue[0].st, queue[0].phi
+		queue = queue[1:]
+		curPhis = phiVals
 		for k := range fr.edge {
 			if body[k[0]] {
 				delete(fr.edge, k)
@@ -324,43 +447,92 @@ func (e *Eval) evalLoopUnrolled(fr *frame, h *ssa.BasicBlock, body map[*ssa.Basi
 				noteExit(b, s, fr.edge[k])
 			}
 		}
-		// back edges
-		var back State
-		haveBack := false
-		next := map[*ssa.Phi]AV{}
+		// back edges: one entry per way back to the header
+		var entries []pending
 		for i, p := range h.Preds {
 			k := edgeKey{p, h}
 			if !body[p] || !fr.edgeOK[k] {
 				continue
 			}
-			if !haveBack {
-				back = fr.edge[k].clone()
-				haveBack = true
-			} else {
-				back = e.joinStatesE(back, fr.edge[k])
-			}
-			for _, phi := range phis {
-				next[phi] = joinAV(next[phi], e.val(fr, phi.Edges[i]))
-			}
-		}
-		// word lookups: every way round the loop must have passed the hit edge
-		for site, o := range e.lkObj {
-			if site.Block() == nil || !(body[site.Block()] || e.lkLoopHdr[site] == h) || !haveBack {
-				continue
-			}
-			hit := false
-			if c, ok := back[o].(CellC); ok {
-				if b, ok := c.V.(BoolV); ok && b.Known && b.Val {
-					hit = true
+			// a latch that only merges (φ-nodes and a jump) is looked through: one entry per way
+			// into it, with the φ values that way gives
+			split := false
+			if p != h && mergeOnly(p) {
+				var qs []int
+				for qi, q := range p.Preds {
+					if fr.edgeOK[edgeKey{q, p}] {
+						qs = append(qs, qi)
+					}
+				}
+				if len(qs) >= 2 {
+					split = true
+					saved := map[ssa.Value]AV{}
+					for _, in := range p.Instrs {
+						if lphi, ok := in.(*ssa.Phi); ok {
+							saved[lphi] = fr.env[lphi]
+						}
+					}
+					for _, qi := range qs {
+						for _, in := range p.Instrs {
+							if lphi, ok := in.(*ssa.Phi); ok {
+								fr.env[lphi] = e.val(fr, lphi.Edges[qi])
+							}
+						}
+						en := pending{st: fr.edge[edgeKey{p.Preds[qi], p}].clone(), phi: map[*ssa.Phi]AV{}}
+						for _, phi := range phis {
+							en.phi[phi] = e.val(fr, phi.Edges[i])
+						}
+						entries = append(entries, en)
+					}
+					for v, a := range saved {
+						fr.env[v] = a
+					}
 				}
 			}
-			if prev, seen := hits[site]; seen {
-				hits[site] = prev && hit
-			} else {
-				hits[site] = hit
+			if !split {
+				en := pending{st: fr.edge[k].clone(), phi: map[*ssa.Phi]AV{}}
+				for _, phi := range phis {
+					en.phi[phi] = e.val(fr, phi.Edges[i])
+				}
+				entries = append(entries, en)
 			}
 		}
-		if !haveBack {
+		// entries that give the header the same values are one
+		var merged []pending
+		for _, en := range entries {
+			found := false
+			for mi := range merged {
+				same := true
+				for _, phi := range phis {
+					if fmt.Sprint(merged[mi].phi[phi]) != fmt.Sprint(en.phi[phi]) {
+						same = false
+						break
+					}
+				}
+				if same {
+					merged[mi].st = e.joinStatesE(merged[mi].st, en.st)
+					found = true
+					break
+				}
+			}
+			if !found {
+				merged = append(merged, en)
+			}
+		}
+		entries = merged
+		queue = append(queue, entries...)
+		if len(queue) > 3 {
+			// too many ways apart: one joined entry, as a summary would have it
+			j := queue[0]
+			for _, en := range queue[1:] {
+				j.st = e.joinStatesE(j.st, en.st)
+				for _, phi := range phis {
+					j.phi[phi] = joinAV(j.phi[phi], en.phi[phi])
+				}
+			}
+			queue = []pending{j}
+		}
+		if len(queue) == 0 {
 			finished = true
 			iters++
 			break
@@ -368,17 +540,84 @@ func (e *Eval) evalLoopUnrolled(fr *frame, h *ssa.BasicBlock, body map[*ssa.Basi
 		if unknownConds > 4 {
 			break
 		}
-		st = back
-		phiVals = next
 	}
+	curPhis = nil
 	if !finished {
 		return false
+	}
+	// exits that differ in what the header's φ-nodes held: kept for the code after the loop
+	{
+		var distinct []map[ssa.Value]AV
+		var dStates []State
+		var dLks []map[ssa.Instruction][2]AV
+		for wi, w := range worlds {
+			dup := -1
+			for di, d := range distinct {
+				same := len(d) == len(w)
+				for v, a := range w {
+					if fmt.Sprint(d[v]) != fmt.Sprint(a) {
+						same = false
+						break
+					}
+				}
+				if same {
+					dup = di
+					break
+				}
+			}
+			if dup < 0 {
+				distinct = append(distinct, w)
+				dStates = append(dStates, worldSt[wi])
+				dLks = append(dLks, worldLk[wi])
+			} else {
+				dStates[dup] = e.joinStatesE(dStates[dup], worldSt[wi])
+				for site, mk := range worldLk[wi] {
+					old := dLks[dup][site]
+					dLks[dup][site] = [2]AV{joinAV(old[0], mk[0]), joinAV(old[1], mk[1])}
+				}
+			}
+		}
+		if len(distinct) >= 2 && len(distinct) <= 64 {
+			if fr.worlds == nil {
+				fr.worlds = map[any]*worldSet{}
+			}
+			ws := &worldSet{alts: distinct, states: dStates, lks: dLks, body: body, joined: map[*Obj]string{}}
+			var all State
+			for _, s := range exitState {
+				if all == nil {
+					all = s.clone()
+				} else {
+					all = e.joinStatesE(all, s)
+				}
+			}
+			for o, c := range all {
+				if c != nil {
+					ws.joined[o] = c.String()
+				}
+			}
+			fr.worlds[h] = ws
+		}
 	}
 	if e.LoopHits == nil {
 		e.LoopHits = map[ssa.Instruction]bool{}
 	}
+	// word lookups made in this run of the loop: none was made again where the one before had
+	// not certainly found its word (whether the last one did is read off the state at the exit
+	// that accepts)
+	for site := range e.lkObj {
+		if site.Block() == nil || !(body[site.Block()] || e.lkLoopHdr[site] == h) {
+			continue
+		}
+		if e.lkSeenAct[site] == e.unrollActs[0] {
+			hits[site] = !e.lkMissCont[site]
+		}
+	}
 	for site, hit := range hits {
 		e.LoopHits[site] = hit
+		if e.LoopHitsUnrolled == nil {
+			e.LoopHitsUnrolled = map[ssa.Instruction]bool{}
+		}
+		e.LoopHitsUnrolled[site] = true
 	}
 	// the code after the loop
 	for k := range fr.edge {
